@@ -6,6 +6,7 @@ import (
 	"context"
 	"fmt"
 	"os"
+	"path/filepath"
 	"strings"
 
 	"reservoir/metrics"
@@ -125,6 +126,9 @@ func scenarioSeq(c *vrun.Ctx) {
 					// a restart over a dirty directory: abandon the instance, reopen the directory
 					h.cancel()
 					vsched.Quiesce()
+					// "abandonment at any point": a store that was in flight at that moment leaves its temporary
+					// file behind (the body is streamed into <key>.tmp and renamed when complete)
+					os.WriteFile(filepath.Join(h.dir, h.keys["a"].Hex+".tmp"), []byte("the part of a body that had arrived"), 0o644)
 					metrics.Global = metrics.NewMetrics()
 					refreshDemoted()
 					ctx, cancel := context.WithCancel(context.Background())
